@@ -8,121 +8,170 @@ Local Open Scope Z_scope.
 Section act_induction.
   Variable P : act -> Prop.
   Hypothesis Hrec : forall a, P (ARec a).
-  Hypothesis Hdl : forall base tab ctor, Forall P ctor -> P (ADlopen base tab ctor).
+  Hypothesis Hdl : forall base tab deps ctor, Forall P ctor -> P (ADlopen base tab deps ctor).
   Fixpoint act_ind' (x : act) : P x :=
     match x with
     | ARec a => Hrec a
-    | ADlopen b t ctor =>
-        Hdl b t ctor ((fix go (l : list act) : Forall P l :=
-                         match l with
-                         | [] => Forall_nil P
-                         | y :: r => Forall_cons y (act_ind' y) (go r)
-                         end) ctor)
+    | ADlopen b t deps ctor =>
+        Hdl b t deps ctor ((fix go (l : list act) : Forall P l :=
+                              match l with
+                              | [] => Forall_nil P
+                              | y :: r => Forall_cons y (act_ind' y) (go r)
+                              end) ctor)
     end.
 End act_induction.
 
-Lemma run_act_dlopen : forall early base tab ctor clk,
-  run_act early (ADlopen base tab ctor) clk =
+Lemma run_act_dlopen : forall early fixed outer base tab deps ctor clk,
+  run_act early fixed outer (ADlopen base tab deps ctor) clk =
+  let stamp := dl_stamp fixed outer clk in
   if early
-  then let '(c2, rs, ds) := run_acts early ctor (clk + 1) in (c2, rs, ds ++ [mkDl clk base tab])
-  else let '(c2, rs, ds) := run_acts early ctor clk in (c2 + 1, rs, ds ++ [mkDl c2 base tab]).
+  then let '(c2, rs, ds) := run_acts early fixed (Some stamp) ctor (clk + 1) in (c2, rs, ds ++ dl_msgs fixed stamp base tab deps)
+  else let '(c2, rs, ds) := run_acts early fixed (Some stamp) ctor clk in (c2 + 1, rs, ds ++ dl_msgs fixed c2 base tab deps).
 Proof.
-  intros early base tab ctor clk. cbn [run_act].
-  assert (E : forall l c,
+  intros early fixed outer base tab deps ctor clk. cbn [run_act].
+  assert (E : forall st l c,
     (fix go (l : list act) (c : Z) : rout :=
        match l with
        | [] => (c, [], [])
-       | y :: r => let '(c1, r1, d1) := run_act early y c in
+       | y :: r => let '(c1, r1, d1) := run_act early fixed (Some st) y c in
                    let '(c2, r2, d2) := go r c1 in (c2, r1 ++ r2, d1 ++ d2)
-       end) l c = run_acts early l c).
-  { induction l as [|y r IH]; intros c; [reflexivity|]. cbn [run_acts].
-    destruct (run_act early y c) as [[c1 r1] d1]. rewrite IH. reflexivity. }
-  rewrite !E. reflexivity.
+       end) l c = run_acts early fixed (Some st) l c).
+  { intros st. induction l as [|y r IH]; intros c; [reflexivity|]. cbn [run_acts].
+    destruct (run_act early fixed (Some st) y c) as [[c1 r1] d1]. rewrite IH. reflexivity. }
+  cbv zeta. rewrite !E. reflexivity.
 Qed.
 
-(* the clock only moves forward; everything produced by an action lies between the clock value
-   it started with and the one it ended with *)
-Definition bounded (early : bool) (clk : Z) (o : rout) : Prop :=
+(* the clock only moves forward; records lie between the clock value an action started with and
+   the one it ended with; DLOP time stamps are never later than the end and never earlier than the
+   entry time of the outermost dlopen in progress (or the start, outside any dlopen) *)
+Definition lower (outer : option Z) (clk : Z) : Z := match outer with Some t0 => t0 | None => clk end.
+Definition outer_ok (outer : option Z) (clk : Z) : Prop := match outer with Some t0 => t0 <= clk | None => True end.
+
+Definition bounded (outer : option Z) (clk : Z) (o : rout) : Prop :=
   let '(c', recs, dls) := o in
   clk <= c' /\ (forall t a, In (t, a) recs -> clk <= t < c') /\
-  (forall d, In d dls -> clk <= d_time d < c').
+  (forall d, In d dls -> lower outer clk <= d_time d < c').
 
-Lemma run_acts_bounded : forall early l, Forall (fun x => forall clk, bounded early clk (run_act early x clk)) l ->
-  forall clk, bounded early clk (run_acts early l clk).
+Lemma dl_msgs_time : forall fixed stamp base tab deps d, In d (dl_msgs fixed stamp base tab deps) -> d_time d = stamp.
 Proof.
-  induction l as [|y r IH]; intros HF clk.
+  intros fixed stamp base tab deps d [<-|H]; [reflexivity|]. destruct fixed; [|destruct H].
+  apply in_map_iff in H. destruct H as (x & <- & _). reflexivity.
+Qed.
+
+Lemma run_acts_bounded : forall early fixed outer l,
+  Forall (fun x => forall outer clk, outer_ok outer clk -> bounded outer clk (run_act early fixed outer x clk)) l ->
+  forall clk, outer_ok outer clk -> bounded outer clk (run_acts early fixed outer l clk).
+Proof.
+  induction l as [|y r IH]; intros HF clk Ho.
   - cbn. repeat split; try lia; intros; contradiction.
   - inversion HF as [|? ? Hy Hr]; subst. cbn [run_acts].
-    specialize (Hy clk). destruct (run_act early y clk) as [[c1 r1] d1].
-    specialize (IH Hr c1). destruct (run_acts early r c1) as [[c2 r2] d2].
-    cbn in *. destruct Hy as (A1 & A2 & A3). destruct IH as (B1 & B2 & B3).
+    specialize (Hy outer clk Ho). destruct (run_act early fixed outer y clk) as [[c1 r1] d1].
+    cbn in Hy. destruct Hy as (A1 & A2 & A3).
+    assert (Ho1 : outer_ok outer c1) by (destruct outer; cbn in *; lia).
+    specialize (IH Hr c1 Ho1). destruct (run_acts early fixed outer r c1) as [[c2 r2] d2].
+    cbn in *. destruct IH as (B1 & B2 & B3).
     split; [lia|]. split.
     + intros t a H. apply in_app_or in H. destruct H as [H|H]; [specialize (A2 _ _ H) | specialize (B2 _ _ H)]; lia.
-    + intros d H. apply in_app_or in H. destruct H as [H|H]; [specialize (A3 _ H) | specialize (B3 _ H)]; lia.
+    + intros d H. apply in_app_or in H. destruct H as [H|H]; [specialize (A3 _ H) | specialize (B3 _ H)];
+        destruct outer; cbn in *; lia.
 Qed.
 
-Lemma run_act_bounded : forall early x clk, bounded early clk (run_act early x clk).
+Lemma run_act_bounded : forall early fixed x outer clk, outer_ok outer clk -> bounded outer clk (run_act early fixed outer x clk).
 Proof.
-  intros early x. induction x as [a | base tab ctor IH] using act_ind'; intros clk.
+  intros early fixed x. induction x as [a | base tab deps ctor IH] using act_ind'; intros outer clk Ho.
   - cbn. split; [lia|]. split; [|intros d []].
     intros t0 b [H|[]]. inversion H. lia.
-  - rewrite run_act_dlopen. destruct early.
-    + pose proof (run_acts_bounded true ctor IH (clk + 1)) as B.
-      destruct (run_acts true ctor (clk + 1)) as [[c2 rs] ds]. cbn in *. destruct B as (B1 & B2 & B3).
-      split; [lia|]. split.
+  - rewrite run_act_dlopen. cbv zeta.
+    assert (Hst : lower outer clk <= dl_stamp fixed outer clk <= clk).
+    { unfold dl_stamp, lower. destruct fixed, outer; cbn in *; lia. }
+    destruct early.
+    + assert (Ho' : outer_ok (Some (dl_stamp fixed outer clk)) (clk + 1)) by (cbn; lia).
+      pose proof (run_acts_bounded true fixed (Some (dl_stamp fixed outer clk)) ctor IH (clk + 1) Ho') as B.
+      destruct (run_acts true fixed (Some (dl_stamp fixed outer clk)) ctor (clk + 1)) as [[c2 rs] ds].
+      cbn in B. destruct B as (B1 & B2 & B3). cbn. split; [lia|]. split.
       * intros t a H. specialize (B2 _ _ H). lia.
-      * intros d H. apply in_app_or in H. destruct H as [H|[<-|[]]]; [specialize (B3 _ H); lia | cbn; lia].
-    + pose proof (run_acts_bounded false ctor IH clk) as B.
-      destruct (run_acts false ctor clk) as [[c2 rs] ds]. cbn in *. destruct B as (B1 & B2 & B3).
-      split; [lia|]. split.
+      * intros d H. apply in_app_or in H. destruct H as [H|H]; [specialize (B3 _ H); lia|].
+        rewrite (dl_msgs_time _ _ _ _ _ _ H). lia.
+    + assert (Ho' : outer_ok (Some (dl_stamp fixed outer clk)) clk) by (cbn; lia).
+      pose proof (run_acts_bounded false fixed (Some (dl_stamp fixed outer clk)) ctor IH clk Ho') as B.
+      destruct (run_acts false fixed (Some (dl_stamp fixed outer clk)) ctor clk) as [[c2 rs] ds].
+      cbn in B. destruct B as (B1 & B2 & B3). cbn. split; [lia|]. split.
       * intros t a H. specialize (B2 _ _ H). lia.
-      * intros d H. apply in_app_or in H. destruct H as [H|[<-|[]]]; [specialize (B3 _ H); lia | cbn; lia].
+      * intros d H. apply in_app_or in H. destruct H as [H|H]; [specialize (B3 _ H); lia|].
+        rewrite (dl_msgs_time _ _ _ _ _ _ H). lia.
 Qed.
 
-Lemma run_acts_bounded' : forall early l clk, bounded early clk (run_acts early l clk).
+Lemma run_acts_bounded' : forall early fixed outer l clk, outer_ok outer clk -> bounded outer clk (run_acts early fixed outer l clk).
 Proof.
-  intros. apply run_acts_bounded. apply Forall_forall. intros x _ c. apply run_act_bounded.
+  intros. apply run_acts_bounded; auto. apply Forall_forall. intros x _ o c Hc. now apply run_act_bounded.
 Qed.
 
-(* the ordering invariant at ANY dlopen node (outermost or nested in a constructor): the DLOP
-   message carries the clock value at which the wrapper was entered, and every record made while
-   the library is being loaded (its constructors, whatever they call, nested dlopens) is later *)
-Lemma load_precedes_ctor_records : forall base tab ctor clk c' recs dls,
-  run_act true (ADlopen base tab ctor) clk = (c', recs, dls) ->
-  In (mkDl clk base tab) dls /\ (forall t a, In (t, a) recs -> clk < t) /\ clk < c'.
+(* the ordering invariant at ANY dlopen node (outermost or nested in a constructor), for the code
+   with the clock read first: the library AND (fixed code) every dependency mapped with it get a
+   DLOP message whose time stamp - the entry time of the outermost dlopen in progress - is earlier
+   than every record made while the library is being loaded *)
+Lemma load_precedes_ctor_records : forall fixed outer base tab deps ctor clk c' recs dls,
+  outer_ok outer clk ->
+  run_act true fixed outer (ADlopen base tab deps ctor) clk = (c', recs, dls) ->
+  let stamp := dl_stamp fixed outer clk in
+  In (mkDl stamp base tab) dls /\
+  (fixed = true -> forall d, In d deps -> In (mkDl stamp (fst d) (snd d)) dls) /\
+  (forall t a, In (t, a) recs -> stamp < t) /\ stamp <= clk < c'.
 Proof.
-  intros base tab ctor clk c' recs dls H. rewrite run_act_dlopen in H.
-  pose proof (run_acts_bounded' true ctor (clk + 1)) as B.
-  destruct (run_acts true ctor (clk + 1)) as [[c2 rs] ds]. inversion H; subst. cbn in B.
-  destruct B as (B1 & B2 & B3). split; [apply in_or_app; right; now left|]. split; [|lia].
-  intros t a Hin. specialize (B2 _ _ Hin). lia.
+  intros fixed outer base tab deps ctor clk c' recs dls Ho H. rewrite run_act_dlopen in H. cbv zeta in *.
+  assert (Hst : dl_stamp fixed outer clk <= clk) by (unfold dl_stamp; destruct fixed, outer; cbn in *; lia).
+  assert (Ho' : outer_ok (Some (dl_stamp fixed outer clk)) (clk + 1)) by (cbn; lia).
+  pose proof (run_acts_bounded' true fixed (Some (dl_stamp fixed outer clk)) ctor (clk + 1) Ho') as B.
+  destruct (run_acts true fixed (Some (dl_stamp fixed outer clk)) ctor (clk + 1)) as [[c2 rs] ds].
+  inversion H; subst. cbn in B. destruct B as (B1 & B2 & B3).
+  split; [apply in_or_app; right; now left|]. split.
+  - intros -> d Hd. apply in_or_app. right. right. apply in_map_iff. exists d. auto.
+  - split; [|lia]. intros t a Hin. specialize (B2 _ _ Hin). lia.
 Qed.
 
 (* ... and every record of the rest of the run as well *)
-Lemma load_precedes_all_records : forall base tab ctor rest clk c' recs dls,
-  run_acts true (ADlopen base tab ctor :: rest) clk = (c', recs, dls) ->
-  In (mkDl clk base tab) dls /\ (forall t a, In (t, a) recs -> clk < t).
+Lemma load_precedes_all_records : forall fixed base tab deps ctor rest clk c' recs dls,
+  run_acts true fixed None (ADlopen base tab deps ctor :: rest) clk = (c', recs, dls) ->
+  In (mkDl clk base tab) dls /\
+  (fixed = true -> forall d, In d deps -> In (mkDl clk (fst d) (snd d)) dls) /\
+  (forall t a, In (t, a) recs -> clk < t).
 Proof.
-  intros base tab ctor rest clk c' recs dls H. cbn [run_acts] in H.
-  destruct (run_act true (ADlopen base tab ctor) clk) as [[c1 r1] d1] eqn:E1.
-  destruct (load_precedes_ctor_records _ _ _ _ _ _ _ E1) as (A1 & A2 & A3).
-  pose proof (run_acts_bounded' true rest c1) as B.
-  destruct (run_acts true rest c1) as [[c2 r2] d2]. inversion H; subst. cbn in B. destruct B as (B1 & B2 & B3).
-  split; [apply in_or_app; now left|].
-  intros t a Hin. apply in_app_or in Hin. destruct Hin as [Hin|Hin]; [eauto|]. specialize (B2 _ _ Hin). lia.
+  intros fixed base tab deps ctor rest clk c' recs dls H. cbn [run_acts] in H.
+  destruct (run_act true fixed None (ADlopen base tab deps ctor) clk) as [[c1 r1] d1] eqn:E1.
+  destruct (load_precedes_ctor_records fixed None base tab deps ctor clk c1 r1 d1 I E1) as (A1 & A2 & A3 & A4).
+  assert (Es : dl_stamp fixed None clk = clk) by (unfold dl_stamp; destruct fixed; reflexivity).
+  rewrite Es in *.
+  pose proof (run_acts_bounded' true fixed None rest c1 I) as B.
+  destruct (run_acts true fixed None rest c1) as [[c2 r2] d2]. inversion H; subst. cbn in B. destruct B as (B1 & B2 & B3).
+  split; [apply in_or_app; now left|]. split.
+  - intros Hf d Hd. apply in_or_app. left. auto.
+  - intros t a Hin. apply in_app_or in Hin. destruct Hin as [Hin|Hin]; [eauto|]. specialize (B2 _ _ Hin). lia.
 Qed.
 
-(* the same for the wrapper AS BUILT: [wrap_dlopen_clock_first] is generated from the C text of
-   libmcount/wrap.c (position of the mcount_gettime() call relative to real_dlopen()) *)
-Lemma load_precedes_ctor_records_as_built : forall base tab ctor clk c' recs dls,
-  run_act wrap_dlopen_clock_first (ADlopen base tab ctor) clk = (c', recs, dls) ->
-  In (mkDl clk base tab) dls /\ (forall t a, In (t, a) recs -> clk < t) /\ clk < c'.
-Proof. change wrap_dlopen_clock_first with true. exact load_precedes_ctor_records. Qed.
+(* the same for the wrapper AS BUILT: both flags are generated from the C text of libmcount/wrap.c
+   (mcount_gettime() called before real_dlopen()?  no name filter in dlopen_base_callback()?) *)
+Lemma load_precedes_ctor_records_as_built : forall outer base tab deps ctor clk c' recs dls,
+  outer_ok outer clk ->
+  run_act wrap_dlopen_clock_first wrap_dlopen_reports_all outer (ADlopen base tab deps ctor) clk = (c', recs, dls) ->
+  let stamp := match outer with Some t0 => t0 | None => clk end in
+  In (mkDl stamp base tab) dls /\ (forall d, In d deps -> In (mkDl stamp (fst d) (snd d)) dls) /\
+  (forall t a, In (t, a) recs -> stamp < t).
+Proof.
+  change wrap_dlopen_clock_first with true. change wrap_dlopen_reports_all with true.
+  intros outer base tab deps ctor clk c' recs dls Ho H.
+  destruct (load_precedes_ctor_records true outer base tab deps ctor clk c' recs dls Ho H) as (A & B & C & _).
+  cbn in *. repeat split; auto.
+Qed.
 
-Lemma load_precedes_all_records_as_built : forall base tab ctor rest clk c' recs dls,
-  run_acts wrap_dlopen_clock_first (ADlopen base tab ctor :: rest) clk = (c', recs, dls) ->
-  In (mkDl clk base tab) dls /\ (forall t a, In (t, a) recs -> clk < t).
-Proof. change wrap_dlopen_clock_first with true. exact load_precedes_all_records. Qed.
+Lemma load_precedes_all_records_as_built : forall base tab deps ctor rest clk c' recs dls,
+  run_acts wrap_dlopen_clock_first wrap_dlopen_reports_all None (ADlopen base tab deps ctor :: rest) clk = (c', recs, dls) ->
+  In (mkDl clk base tab) dls /\ (forall d, In d deps -> In (mkDl clk (fst d) (snd d)) dls) /\
+  (forall t a, In (t, a) recs -> clk < t).
+Proof.
+  change wrap_dlopen_clock_first with true. change wrap_dlopen_reports_all with true.
+  intros base tab deps ctor rest clk c' recs dls H.
+  destruct (load_precedes_all_records true base tab deps ctor rest clk c' recs dls H) as (A & B & C). auto.
+Qed.
 
 (* consequence for the analysis side: such a record is never rejected by the time test of
    session_find_dlsym - the library's table is searched for it *)
@@ -147,33 +196,52 @@ Proof.
 Qed.
 
 (* end to end over the model: a record made by a constructor of a library (wrapper as in the code)
-   at an address inside a symbol of that library is resolved to that symbol when no library that
-   is listed later claims the address *)
-Lemma ctor_record_resolves : forall base tab ctor clk c' recs dls s l1 l2 t a x,
-  run_act true (ADlopen base tab ctor) clk = (c', recs, dls) -> In (t, a) recs ->
-  se_dl s = l1 ++ mkDl clk base tab :: l2 ->
-  find_sym tab ((a - base) mod W64) = Some x ->
+   at an address inside a symbol of that library OR of a dependency mapped with it is resolved to
+   that symbol when no library that is listed later claims the address *)
+Lemma ctor_record_resolves : forall outer base tab deps ctor clk c' recs dls s l1 l2 t a x lb ltab,
+  outer_ok outer clk ->
+  run_act true true outer (ADlopen base tab deps ctor) clk = (c', recs, dls) -> In (t, a) recs ->
+  (lb, ltab) = (base, tab) \/ In (lb, ltab) deps ->
+  se_dl s = l1 ++ mkDl (dl_stamp true outer clk) lb ltab :: l2 ->
+  find_sym ltab ((a - lb) mod W64) = Some x ->
   (forall d', In d' l2 -> dl_hit t a d' = None) ->
   find_dlsym s t a = Some x.
 Proof.
-  intros base tab ctor clk c' recs dls s l1 l2 t a x Hrun Hin Hs Hx Hl2.
-  destruct (load_precedes_ctor_records _ _ _ _ _ _ _ Hrun) as (_ & Hlt & _).
-  specialize (Hlt _ _ Hin).
-  apply (dlsym_latest_first s l1 (mkDl clk base tab) l2 t a x Hs); cbn [d_time d_tab d_base]; [lia | exact Hx | exact Hl2].
+  intros outer base tab deps ctor clk c' recs dls s l1 l2 t a x lb ltab Ho Hrun Hin Hlib Hs Hx Hl2.
+  destruct (load_precedes_ctor_records _ _ _ _ _ _ _ _ _ _ Ho Hrun) as (_ & _ & Hlt & _).
+  specialize (Hlt _ _ Hin). cbv zeta in Hlt.
+  apply (dlsym_latest_first s l1 (mkDl (dl_stamp true outer clk) lb ltab) l2 t a x Hs); cbn [d_time d_tab d_base]; [lia | exact Hx | exact Hl2].
 Qed.
 
 (* the order of the two steps in the wrapper matters: with the clock read after real_dlopen() a
    constructor's record predates the DLOP time stamp and the library is skipped for it *)
 Definition tab_plugin : symtab := [mkSym 256 64 84 [105;110;105;116]].
+Definition tab_dep : symtab := [mkSym 512 32 84 [100;101;112]].
 Lemma late_timestamp_refuted :
-  let '(_, recs, dls) := run_act false (ADlopen 4096 tab_plugin [ARec 4360]) 10 in
+  let '(_, recs, dls) := run_act false true None (ADlopen 4096 tab_plugin [] [ARec 4360]) 10 in
   recs = [(10, 4360)] /\ dls = [mkDl 11 4096 tab_plugin] /\
   find_dlsym (mkSess 0 [] 1 1 0 (mkSinfo 0 [] []) (dl_list dls)) 10 4360 = None /\
   spec_find tab_plugin (4360 - 4096) = Some (mkSym 256 64 84 [105;110;105;116]).
 Proof. vm_compute. repeat split; reflexivity. Qed.
 
-Example early_timestamp_example :
-  let '(_, recs, dls) := run_act true (ADlopen 4096 tab_plugin [ARec 4360]) 10 in
-  recs = [(11, 4360)] /\ dls = [mkDl 10 4096 tab_plugin] /\
-  find_dlsym (mkSess 0 [] 1 1 0 (mkSinfo 0 [] []) (dl_list dls)) 11 4360 = Some (mkSym 256 64 84 [105;110;105;116]).
+(* the code as found (name filter in dlopen_base_callback): a dependency mapped by the same
+   dlopen() call gets no DLOP message, the record of its function is not resolved *)
+Lemma dependency_legacy_refuted :
+  let '(_, recs, dls) := run_act true false None (ADlopen 4096 tab_plugin [(8192, tab_dep)] [ARec 4360; ARec 8710]) 10 in
+  recs = [(11, 4360); (12, 8710)] /\ dls = [mkDl 10 4096 tab_plugin] /\
+  find_dlsym (mkSess 0 [] 1 1 0 (mkSinfo 0 [] []) (dl_list dls)) 12 8710 = None /\
+  spec_find tab_dep (8710 - 8192) = Some (mkSym 512 32 84 [100;101;112]).
+Proof. vm_compute. repeat split; reflexivity. Qed.
+
+(* ... the fixed code resolves both, also when the dlopen is issued by a constructor of another
+   library that recorded before (outermost time stamp) *)
+Example dependency_fixed_example :
+  let '(_, recs, dls) := run_act true true None
+      (ADlopen 65536 [mkSym 16 16 84 [111]] [] [ARec 65552; ADlopen 4096 tab_plugin [(8192, tab_dep)] [ARec 4360; ARec 8710]]) 10 in
+  let s := mkSess 0 [] 1 1 0 (mkSinfo 0 [] []) (dl_list dls) in
+  recs = [(11, 65552); (13, 4360); (14, 8710)] /\
+  map d_time dls = [10; 10; 10] /\
+  find_dlsym s 11 65552 = Some (mkSym 16 16 84 [111]) /\
+  find_dlsym s 13 4360 = Some (mkSym 256 64 84 [105;110;105;116]) /\
+  find_dlsym s 14 8710 = Some (mkSym 512 32 84 [100;101;112]).
 Proof. vm_compute. repeat split; reflexivity. Qed.
